@@ -537,56 +537,71 @@ package modbus
 // to the server by verifRtuRoundTrip / verifTCPRoundTrip and the verifServe* lemmas.
 
 //@ model func lastRx(t Transport) PDU
+//@ model func failed(t Transport) bool
+//@ spec func regsRespOK(r PDU, count uint16) bool = len(r.Data) >= 2 && len(r.Data) >= 1 + 2*int(r.Data[0]/2) && int(r.Data[0]/2) == int(count)
+//@ spec func bitsRespOK(r PDU, count uint16) bool = len(r.Data) == 1 + fdiv(int(count)+7, 8) && int(r.Data[0]) == fdiv(int(count)+7, 8)
 
 //@ extern (Transport).Encode(self, id, pdu)
+//@   modifies self
+//@   ensures failed(self) <==> (old(failed(self)) || res1 != nil)
 //@ extern (Transport).Write(self, p)
+//@   modifies self
+//@   ensures failed(self) <==> (old(failed(self)) || res1 != nil)
 //@ extern (Transport).Read(self, p)
 //@   requires len(p) >= 260
-//@   modifies p
+//@   modifies self, p
 //@   ensures res1 == nil ==> 0 <= res0 && res0 <= len(p)
+//@   ensures failed(self) <==> (old(failed(self)) || res1 != nil)
 //@ extern (Transport).Decode(self, packet)
 //@   modifies self
 //@   ensures res2 == nil ==> res1 == lastRx(self)
+//@   ensures failed(self) <==> (old(failed(self)) || res2 != nil)
 
 //@ func (*Client).ReadCoils
 //@   props C19
-//@   requires c != nil
+//@   requires c != nil && !failed(c.transport)
 //@   modifies c.transport
 //@   ensures [C19] res1 == nil ==> len(res0) == int(count) && lastRx(c.transport).FunctionCode == FuncCodeReadCoils && len(lastRx(c.transport).Data) == 1 + fdiv(int(count)+7, 8)
 //@   ensures [C19] res1 == nil ==> (forall j int :: 0 <= j && j < int(count) ==> res0[j] == bit8(lastRx(c.transport).Data[1+fdiv(j, 8)], fmod(j, 8)))
+//@   ensures [C19] no-spurious-error: res1 != nil ==> failed(c.transport) || lastRx(c.transport).FunctionCode != FuncCodeReadCoils || !bitsRespOK(lastRx(c.transport), count)
 
 //@ func (*Client).ReadDiscreteInputs
 //@   props C19
-//@   requires c != nil
+//@   requires c != nil && !failed(c.transport)
 //@   modifies c.transport
 //@   ensures [C19] res1 == nil ==> len(res0) == int(count) && lastRx(c.transport).FunctionCode == FuncCodeReadDiscreteInputs && len(lastRx(c.transport).Data) == 1 + fdiv(int(count)+7, 8)
 //@   ensures [C19] res1 == nil ==> (forall j int :: 0 <= j && j < int(count) ==> res0[j] == bit8(lastRx(c.transport).Data[1+fdiv(j, 8)], fmod(j, 8)))
+//@   ensures [C19] no-spurious-error: res1 != nil ==> failed(c.transport) || lastRx(c.transport).FunctionCode != FuncCodeReadDiscreteInputs || !bitsRespOK(lastRx(c.transport), count)
 
 //@ func (*Client).ReadHoldingRegs
 //@   props C19
-//@   requires c != nil
+//@   requires c != nil && !failed(c.transport)
 //@   modifies c.transport
 //@   ensures [C19] res1 == nil ==> len(res0) == int(count) && lastRx(c.transport).FunctionCode == FuncCodeReadHoldingRegisters
 //@   ensures [C19] res1 == nil ==> (forall j int :: 0 <= j && j < int(count) ==> res0[j] == be16(lastRx(c.transport).Data, 1+2*j))
+//@   ensures [C19] no-spurious-error: res1 != nil ==> failed(c.transport) || lastRx(c.transport).FunctionCode != FuncCodeReadHoldingRegisters || !regsRespOK(lastRx(c.transport), count)
 
 //@ func (*Client).ReadInputRegs
 //@   props C19
-//@   requires c != nil
+//@   requires c != nil && !failed(c.transport)
 //@   modifies c.transport
 //@   ensures [C19] res1 == nil ==> len(res0) == int(count) && lastRx(c.transport).FunctionCode == FuncCodeReadInputRegisters
 //@   ensures [C19] res1 == nil ==> (forall j int :: 0 <= j && j < int(count) ==> res0[j] == be16(lastRx(c.transport).Data, 1+2*j))
+//@   ensures [C19] no-spurious-error: res1 != nil ==> failed(c.transport) || lastRx(c.transport).FunctionCode != FuncCodeReadInputRegisters || !regsRespOK(lastRx(c.transport), count)
 
 //@ func (*Client).WriteSingleCoil
 //@   props C19
-//@   requires c != nil
+//@   requires c != nil && !failed(c.transport)
 //@   modifies c.transport
 //@   ensures [C19] res0 == nil ==> isReq(lastRx(c.transport), FuncCodeWriteSingleCoil, coil, ite(v, 0xFF00, 0))
+//@   ensures [C19] no-spurious-error: res0 != nil ==> failed(c.transport) || !isReq(lastRx(c.transport), FuncCodeWriteSingleCoil, coil, ite(v, 0xFF00, 0))
 
 //@ func (*Client).WriteSingleReg
 //@   props C19
-//@   requires c != nil
+//@   requires c != nil && !failed(c.transport)
 //@   modifies c.transport
 //@   ensures [C19] res0 == nil ==> isReq(lastRx(c.transport), FuncCodeWriteSingleRegister, reg, value)
+//@   ensures [C19] no-spurious-error: res0 != nil ==> failed(c.transport) || !isReq(lastRx(c.transport), FuncCodeWriteSingleRegister, reg, value)
 
 // ---- end-to-end lemmas (zz_verif_lemmas.go) -------------------------------------
 
